@@ -11,6 +11,12 @@ base = json.load(open("/root/.vp/BASELINE.json"))
 fd, junit = tempfile.mkstemp(suffix=".xml"); os.close(fd)
 env = dict(os.environ)
 env.pop("HYLANG_HY_VERIF", None)
+# never consult or write __pycache__ inside the tree: stale byte-code of hy's own .hy files,
+# compiled by an earlier state of the compiler, could hide a change
+import shutil
+_pc = tempfile.mkdtemp(prefix="hybase-pyc-")
+env["PYTHONPYCACHEPREFIX"] = _pc
+env.pop("PYTHONDONTWRITEBYTECODE", None)
 if repo != "/repo":
     env["PYTHONPATH"] = repo
 cmd = ["/venv/bin/python", "-m", "pytest", "-ra", "-q", "-p", "no:cacheprovider",
@@ -23,6 +29,7 @@ for tc in ET.parse(junit).getroot().iter("testcase"):
     if not bad:
         passed.add(f"{tc.get('classname')}::{tc.get('name')}")
 os.unlink(junit)
+shutil.rmtree(_pc, ignore_errors=True)
 missing = [t for t in base["stable_pass"] if t not in passed]
 print(f"baseline: {len(base['stable_pass']) - len(missing)}/{len(base['stable_pass'])} stable tests pass in {repo}")
 for t in missing[:30]:
